@@ -15,7 +15,13 @@ RULE = ("RTL: random input dicts (non-dict tensor / only 'unconstrained' / only 
         "below / equal / above / multiples of the number of inputs, avoid_intragroup_interaction on/off, random "
         "seeds; _get_rtl_structure is called on the shape dict and, for every 6th case, the real layer is built and "
         "called on labelled tensors with recording lattice stubs (gathered indices per output key, both "
-        "separate_outputs modes, both dict insertion orders). The two shuffle permutations are recovered by "
+        "separate_outputs modes, both dict insertion orders). On EVERY accepted case the real layer is built "
+        "(RTL.build on the shapes; through Keras and called for the 'full' cases; parameterization all_vertices "
+        "or, for seed % 3 == 0, kronecker_factored; lattice_size 2 or 3) and the real Lattice / "
+        "KroneckerFactoredLattice sub-layers stored under str(monotonicities) are read: monotonicities equal to "
+        "the structure's flags (no 'increasing' input on an unconstrained dimension), units = number of lattices "
+        "of the group, lattice_sizes / kernel shape of lattice_rank dimensions. "
+        "The two shuffle permutations are recovered by "
         "replaying RandomState(seed).shuffle on index lists and passed to the Coq model, whose structure must be "
         "identical. Random ensemble: set_random_lattice_ensemble on CalibratedLatticeEnsembleConfig (1-9 features, "
         "feature names given or taken from feature_configs, valid / tight / too few slots / rank > n), every "
@@ -25,7 +31,9 @@ RULE = ("RTL: random input dicts (non-dict tensor / only 'unconstrained' / only 
         "replaced by generated dyadic symmetric score matrices (dense, sparse, block, skewed so that the "
         "num_lattices-1 cap binds, zero-importance feature = D13), 3-6 features, tight / spare / too few slots. "
         "Implementation-side predicate on every case: exact rank, lattice count, coverage, RTL balance and "
-        "wiring and output routing, no repeats (random), all pairs covered, same seed twice => same result. "
+        "wiring and output routing, no repeats (random, and Crystals for valid configs), all pairs covered, same "
+        "seed twice => same result; cross-interpreter probe (PYTHONHASHSEED 1 vs 4242) over random, dense and "
+        "grouped RTL, the all-pairs cover (feature order inside a lattice included) and Crystals. "
         "Non-trivial = accepted config with >= 2 lattices (RTL: or more slots than inputs).")
 TRUSTED = ["model: Model/RTLStructure.v, Model/Ensembles.v (hand-written from rtl_layer.py, premade_lib.py)",
            "oracles: np.random.RandomState.shuffle / np.random.shuffle return a permutation; np.random.choice(a) "
@@ -44,7 +52,9 @@ LIMITS = ["the order in which a Python set of ints is iterated (all-pairs cover 
           "the order); scores are dyadic so that float64 evaluation of every compared score is exact; "
           "_get_torsions_and_laplacians (prefitting weights -> scores) is replaced by given scores",
           "known finding D13: _get_final_crystal_lattices raises ValueError (int(round(nan))) when a feature has "
-          "importance 0; the Crystals theorems assume the use allocation succeeded (crystal_uses = Some uses)"]
+          "importance 0; C17_crystals_rank_and_coverage / _every_feature_used assume the use allocation succeeded "
+          "(crystal_uses = Some uses); C17_crystals_allocation_total / _positive_total drop that assumption for "
+          "strictly positive importance scores (which excludes D13)"]
 
 
 # --------------------------------------------------------------------------
@@ -178,6 +188,77 @@ def rtl_predicate(d, s, n, n_inc):
   return None
 
 
+_MONO_CANON = {"increasing": 1, 1: 1, "none": 0, 0: 0, None: 0}
+
+
+def _canon_monotonicities(m, rank):
+  """'increasing'/1 -> 1, 'none'/0/None -> 0; anything else is kept (and then differs from every flag)."""
+  if m is None:
+    return [0] * rank
+  out = []
+  for v in m:
+    if isinstance(v, (int, np.integer)) and not isinstance(v, bool):
+      v = int(v)
+    out.append(_MONO_CANON.get(v, v) if isinstance(v, (int, str)) or v is None else repr(v))
+  return out
+
+
+def _rtl_param(d):
+  """Parameterization and lattice size of the REAL layer (derived from the desc; do not influence the structure)."""
+  param = d.get("param") or ("kronecker_factored" if d["seed"] % 3 == 0 else "all_vertices")
+  size = d.get("lattice_size") or (2 + (d["seed"] // 7) % 2)
+  return param, size
+
+
+def rtl_sublayer_predicate(layer, d, n_inc):
+  """'increasing' inputs are wired only to lattice DIMENSIONS CONSTRAINED to be monotone: read on the real
+  Lattice / KroneckerFactoredLattice sub-layers that RTL.build stored under str(monotonicities) (the objects
+  RTL.call applies to the gathered inputs), not on the _rtl_structure tuple."""
+  from tensorflow_lattice.python import lattice_layer, kronecker_factored_lattice_layer as kfll  # pylint: disable=g-import-not-at-top
+  param, size = _rtl_param(d)
+  rank = d["rank"]
+  s = layer._rtl_structure
+  ll = layer._lattice_layers
+  if len(ll) != len(s):
+    return "RTL.build stored %d sub-lattice layers for %d monotonicity groups (keys %r)" % (
+        len(ll), len(s), sorted(ll))
+  for monos, lats in s:
+    key = str(monos)          # the lookup RTL.call performs
+    flags = [int(m) for m in monos]
+    lats = [[int(i) for i in lat] for lat in lats]
+    if key not in ll:
+      return "no sub-lattice layer stored under %r (keys %r)" % (key, sorted(ll))
+    sub = ll[key]
+    want = lattice_layer.Lattice if param == "all_vertices" else kfll.KroneckerFactoredLattice
+    if type(sub) is not want:   # pylint: disable=unidiomatic-typecheck
+      return "sub-layer for %r is a %s, parameterization=%r asks for %s" % (
+          key, type(sub).__name__, param, want.__name__)
+    got = _canon_monotonicities(sub.monotonicities, rank)
+    for lat in lats:
+      for p, i in enumerate(lat):
+        if i < n_inc and (p >= len(got) or got[p] != 1):
+          return ("increasing input %d is wired to dimension %d of the real sub-lattice %r, whose monotonicities "
+                  "%r do not constrain that dimension" % (i, p, key, sub.monotonicities))
+    if got != flags:
+      return "sub-lattice layer %r has monotonicities %r, the structure's flags are %r" % (
+          key, sub.monotonicities, flags)
+    if sub.units != len(lats):
+      return "sub-lattice layer %r has units=%r for %d lattices" % (key, sub.units, len(lats))
+    if param == "all_vertices":
+      if [int(v) for v in sub.lattice_sizes] != [size] * rank:
+        return "sub-lattice layer %r has lattice_sizes %r, expected lattice_rank=%d dimensions of size %d" % (
+            key, list(sub.lattice_sizes), rank, size)
+      kshape = (size ** rank, len(lats))
+    else:
+      if sub.lattice_sizes != size or sub.num_terms != layer.num_terms:
+        return "KFL sub-layer %r has lattice_sizes %r / num_terms %r" % (key, sub.lattice_sizes, sub.num_terms)
+      kshape = (1, size, len(lats) * rank, layer.num_terms)
+    if sub.built and tuple(int(v) for v in sub.kernel.shape) != kshape:
+      return "built sub-lattice layer %r has kernel shape %r, expected %r (units=%d, lattice_rank=%d)" % (
+          key, tuple(sub.kernel.shape), kshape, len(lats), rank)
+  return None
+
+
 class _Stub(object):
   """Stands in for a Lattice layer: encodes the gathered inputs (which carry
   their flattened index as value) as sum_p x_p * base**p per unit."""
@@ -232,9 +313,14 @@ def eval_rtl(ctx, d):
       x = {"unconstrained": x["unconstrained"], "increasing": x["increasing"]}
     return x
 
+  param, lsize = _rtl_param(d)
+
   def make_layer():
-    return tfl.layers.RTL(num_lattices=num, lattice_rank=rank, random_seed=d["seed"],
+    return tfl.layers.RTL(num_lattices=num, lattice_rank=rank, random_seed=d["seed"], lattice_size=lsize,
                           avoid_intragroup_interaction=d["avoid"], separate_outputs=d["separate"],
+                          parameterization=param,
+                          kernel_initializer=("kfl_random_monotonic_initializer" if param == "kronecker_factored"
+                                              else "random_monotonic_initializer"),
                           dtype="float64")
 
   impl = None
@@ -257,6 +343,8 @@ def eval_rtl(ctx, d):
         fail = "layer built on tensors has structure %r, _get_rtl_structure on the same shapes gave %r" % (
             built, impl)
         impl = built
+      # the REAL (built and called) sub-lattice layers, before they are replaced by recording stubs
+      fail = fail or rtl_sublayer_predicate(layer, d, n_inc)
       for key in list(layer._lattice_layers):
         layer._lattice_layers[key] = _Stub(tf, rank, base)
       y = layer(x)
@@ -276,6 +364,18 @@ def eval_rtl(ctx, d):
     except Exception as e:  # pylint: disable=broad-except
       fail = fail or "building / calling the RTL layer on an accepted config raised %s: %s" % (
           type(e).__name__, str(e)[:200])
+
+  if not d["full"] and impl is not None:
+    # cheap real build (RTL.build on the shapes: creates the real sub-lattice layers, no call)
+    layer = make_layer()
+    try:
+      layer.build(make_input(False))
+      built = _structure_plain(layer._rtl_structure)
+      if built != impl:
+        fail = "RTL.build on the shapes has structure %r, _get_rtl_structure gave %r" % (built, impl)
+      fail = fail or rtl_sublayer_predicate(layer, d, n_inc)
+    except Exception as e:  # pylint: disable=broad-except
+      fail = "RTL.build on an accepted config raised %s: %s" % (type(e).__name__, str(e)[:200])
 
   # oracle values: replay the identically seeded RandomState on index lists
   p1 = p2 = []
@@ -328,8 +428,9 @@ def eval_rtl(ctx, d):
       swapped = "_swapped" if _structure_plain(plain) != impl else ""
     except Exception:  # pylint: disable=broad-except
       pass
-  klass = "rtl_%s_%s_%s_%s%s%s" % (d["form"], groups, slots, "full" if d["full"] else "direct",
-                                   "" if d["avoid"] else "_noavoid", swapped)
+  klass = "rtl_%s_%s_%s_%s%s%s%s" % (d["form"], groups, slots, "full" if d["full"] else "direct",
+                                     "" if d["avoid"] else "_noavoid", swapped,
+                                     "_kfl" if (impl is not None and param == "kronecker_factored") else "")
   return Case(d, coq=coq, pred_fail=fail, nontrivial=(impl is not None and (num >= 2 or total > n)),
               klass=klass, info={"impl_structure": impl, "impl_call": impl_call, "error": err,
                                  "perm1": p1, "perm2": p2})
@@ -612,6 +713,10 @@ def eval_crystals(ctx, d):
     for f in range(n):
       if valid and not any(f in lat for lat in impl):
         fail = fail or "feature %d is in no crystals lattice: %r" % (f, impl)
+    for lat in impl:
+      # repeats created by the placement are "fixed later by swapping": a finalized lattice has distinct features
+      if valid and len(set(lat)) != len(lat):
+        fail = fail or "crystals lattice %r repeats a feature (ensemble %r)" % (lat, impl)
     if fail is None and run() != impl:
       fail = "same inputs gave two different crystals ensembles"
   cfg_c = "(mkcr %s %s %s %s %s %s)" % (
@@ -664,7 +769,7 @@ def eval_cases(ctx, descs):
       cases.append(eval_crystals(ctx, d))
     elif kind == "hashseed":
       # replay of a cross-interpreter determinism failure
-      cs = {"random": [], "rtl": []}
+      cs = {k: [] for k in _PROBE_KINDS}
       cs[d["which"]].append(d["config"])
       res = _hashseed_probe(cs, {})
       cases.append(Case(d, coq=None, pred_fail=res[0][1] if res else None, nontrivial=True, klass="hashseed"))
@@ -692,33 +797,101 @@ def extra(ctx, stats):
     rank = rng.randint(1, 3)
     need = -(-(n_inc + n_unc) // rank)
     cases["rtl"].append([n_inc, n_unc, rank, need + rng.randint(0, 2), rng.randrange(1000), rng.random() < 0.5])
+  # grouped / list-form RTL inputs, the all-pairs cover and Crystals (given scores)
+  cases.update({"rtl_list": [], "cover": [], "crystals": []})
+  for _ in range(ctx.n(8, 40)):
+    inc = [rng.choice([1, 2, 3]) for _ in range(rng.randint(0, 3))]
+    unc = [rng.choice([1, 2, 3]) for _ in range(rng.randint(0 if inc else 1, 3))]
+    rank = rng.randint(1, 3)
+    need = -(-(sum(inc) + sum(unc)) // rank)
+    cases["rtl_list"].append([inc, unc, rank, need + rng.randint(0, 3), rng.randrange(1000), rng.random() < 0.8])
+  for _ in range(ctx.n(8, 40)):
+    n = rng.randint(3, 9)
+    cases["cover"].append([n, rng.randint(2, min(n - 1, 5)), rng.randrange(1000)])
+  for _ in range(ctx.n(8, 40)):
+    n = rng.randint(3, 6)
+    rank = rng.randint(2, min(n - 1, 3))
+    T = [[0.0] * n for _ in range(n)]
+    for a, b in itertools.combinations(range(n), 2):
+      T[a][b] = T[b][a] = rng.randint(0, 16) / 8.0
+    L = [rng.randint(1, 8) / 8.0 for _ in range(n)]
+    if len(set(_importance(n, T, L))) < n:
+      continue    # ties: np.argsort order unspecified (LIMITS)
+    cases["crystals"].append([n, -(-n // rank) + rng.randint(0, 3), rank, T, L])
   return _hashseed_probe(cases, stats)
+
+
+_PROBE_KINDS = ("random", "rtl", "rtl_list", "cover", "crystals")
+
+# child for the kinds c17_child.py does not know (run with python -c)
+_CHILD2 = r"""
+import json, sys
+import numpy as np
+import tensorflow_lattice as tfl
+from tensorflow_lattice.python import premade_lib
+cases = json.loads(sys.argv[1])
+out = {"rtl_list": [], "cover": [], "crystals": []}
+def ens(n, num, rank, seed):
+  names = ["f%d" % i for i in range(n)]
+  return names, tfl.configs.CalibratedLatticeEnsembleConfig(
+      feature_configs=[tfl.configs.FeatureConfig(name=f) for f in names], lattices="crystals",
+      num_lattices=num, lattice_rank=rank, random_seed=seed)
+for (inc, unc, rank, num, seed, avoid) in cases.get("rtl_list", []):
+  layer = tfl.layers.RTL(num_lattices=num, lattice_rank=rank, random_seed=seed, avoid_intragroup_interaction=avoid)
+  shape = {}
+  if unc:
+    shape["unconstrained"] = [(None, d) for d in unc]
+  if inc:
+    shape["increasing"] = [(None, d) for d in inc]
+  st = layer._get_rtl_structure(shape)
+  out["rtl_list"].append([[list(map(int, m)), [[int(i) for i in row] for row in idx]] for m, idx in st])
+for (n, rank, seed) in cases.get("cover", []):
+  names, cfg = ens(n, 2, rank, seed)
+  pre = premade_lib.construct_prefitting_model_config(cfg, names)
+  out["cover"].append([[str(f) for f in lat] for lat in pre.lattices])   # order inside a lattice included
+for (n, num, rank, T, L) in cases.get("crystals", []):
+  names, cfg = ens(n, num, rank, 1)
+  premade_lib._get_torsions_and_laplacians = lambda **kw: ([list(r) for r in T], [np.float64(v) for v in L])
+  out["crystals"].append([[int(f) for f in lat] for lat in premade_lib._get_final_crystal_lattices(
+      model_config=cfg, prefitting_model_config=cfg, prefitting_model=None, feature_names=names)])
+print("RESULT " + json.dumps(out))
+"""
 
 
 def _hashseed_probe(cases, stats):
   import subprocess
   child = os.path.join(os.path.dirname(os.path.abspath(__file__)), "c17_child.py")
-  procs = []
-  for hs in ("1", "4242"):
-    env = dict(os.environ, PYTHONHASHSEED=hs, TF_CPP_MIN_LOG_LEVEL="3")
-    procs.append(subprocess.Popen([sys.executable, "-W", "ignore", child, json.dumps(cases)], env=env,
-                                  stdout=subprocess.PIPE, stderr=subprocess.PIPE, text=True))
-  results = []
-  for pr in procs:
-    so, se = pr.communicate(timeout=900)
-    lines = [l for l in so.splitlines() if l.startswith("RESULT ")]
-    if pr.returncode != 0 or not lines:
-      return [("cross-interpreter-probe-failed", "the determinism probe could not run: %s" % se[-400:],
-               {"case": {"kind": "hashseed", "cases": cases}}, False)]
-    results.append(json.loads(lines[-1][len("RESULT "):]))
-  stats["cross_interpreter_structures_compared"] = len(cases["random"]) + len(cases["rtl"])
+  old = {k: cases.get(k, []) for k in ("random", "rtl")}
+  new = {k: cases.get(k, []) for k in ("rtl_list", "cover", "crystals")}
+  jobs = []    # (kinds, [proc for PYTHONHASHSEED 1, proc for 4242])
+  for kinds, part, argv in ((("random", "rtl"), old, [child]), (("rtl_list", "cover", "crystals"), new, ["-c", _CHILD2])):
+    if not any(part.values()):
+      continue
+    procs = []
+    for hs in ("1", "4242"):
+      env = dict(os.environ, PYTHONHASHSEED=hs, TF_CPP_MIN_LOG_LEVEL="3")
+      procs.append(subprocess.Popen([sys.executable, "-W", "ignore"] + argv + [json.dumps(part)], env=env,
+                                    stdout=subprocess.PIPE, stderr=subprocess.PIPE, text=True))
+    jobs.append((kinds, part, procs))
   out = []
-  for kind in ("random", "rtl"):
-    for c, a, b in zip(cases[kind], results[0][kind], results[1][kind]):
-      if a != b:
-        msg = ("structure is not a function of the seed: %s config %r gives %r in one interpreter and %r in another "
-               "(PYTHONHASHSEED 1 vs 4242)" % (kind, c, a, b))
-        out.append(("structure-differs-between-interpreters", msg,
-                    {"case": {"kind": "hashseed", "which": kind, "config": c}, "clause": msg}, True))
-        break
+  compared = 0
+  for kinds, part, procs in jobs:
+    results = []
+    for pr in procs:
+      so, se = pr.communicate(timeout=900)
+      lines = [l for l in so.splitlines() if l.startswith("RESULT ")]
+      if pr.returncode != 0 or not lines:
+        return [("cross-interpreter-probe-failed", "the determinism probe could not run: %s" % se[-400:],
+                 {"case": {"kind": "hashseed", "cases": cases}}, False)]
+      results.append(json.loads(lines[-1][len("RESULT "):]))
+    for kind in kinds:
+      compared += len(part[kind])
+      for c, a, b in zip(part[kind], results[0][kind], results[1][kind]):
+        if a != b:
+          msg = ("structure is not a function of the seed: %s config %r gives %r in one interpreter and %r in "
+                 "another (PYTHONHASHSEED 1 vs 4242)" % (kind, c, a, b))
+          out.append(("structure-differs-between-interpreters", msg,
+                      {"case": {"kind": "hashseed", "which": kind, "config": c}, "clause": msg}, True))
+          break
+  stats["cross_interpreter_structures_compared"] = compared
   return out
